@@ -80,17 +80,20 @@ func TestVerifC20(t *testing.T) {
 		Property: "C20",
 		Cases:    nSeq + nConc,
 		Rule: "case i<nSeq: PRNG history of Open/Append/After/SetMaxBytes/SessionClosed over <=3 sessions x <=3 streams, payload sizes 0..limit+5, limits 1..96, " +
-			"full probe of every stream against the reference log after every op; case i>=nSeq: 2-8 goroutines with unique payloads, call/return stamped by one logical clock, " +
-			"checked by porcupine (no eviction) or the structural order checker (eviction). non-trivial: sequential history with >=1 eviction observed or >=1 SessionClosed followed by appends; " +
+			"full probe of every stream against the reference log after every op; case i>=nSeq: 2-6 goroutines with unique payloads, call/return stamped by one logical clock, " +
+			"checked by porcupine (no eviction) or the structural order checker (eviction); every 8th of them instead closes a session that holds most of the budget in thousands of streams while other sessions append and resize, then probes every surviving stream. non-trivial: sequential history with >=1 eviction observed or >=1 SessionClosed followed by appends; " +
 			"concurrent history with >=2 overlapping operations on one stream. distinct = distinct (op-kind sequence, eviction pattern) / (overlap pattern) signatures",
 		MinNontrivial: 50,
 		Assumptions: []string{"indices passed to After are >= -1", "limits >= 1 (SetMaxBytes(0) means default and is exercised only as 'very large')",
-			"porcupine checker timeout (60s) would be inconclusive, never a violation"},
+			"a porcupine search that does not finish in 15 s is counted (porcupine_timeouts) and decides nothing; the structural checker still runs on that history"},
 	}
 	vh.Run(t, cfg, func(c *vh.Case) {
-		if c.Index < nSeq {
+		switch {
+		case c.Index < nSeq:
 			sequentialCase(c)
-		} else {
+		case (c.Index-nSeq)%8 == 7:
+			closeUnderLoadCase(c)
+		default:
 			concurrentCase(c)
 		}
 	})
@@ -435,8 +438,8 @@ func concurrentCase(c *vh.Case) {
 		limit = r.Range(8, 120)
 		s.SetMaxBytes(limit)
 	}
-	G := r.Range(2, 8)
-	perG := r.Range(2, 7)
+	G := r.Range(2, 6)
+	perG := r.Range(2, 6)
 	nStreams := r.Range(1, 3)
 	streams := make([]string, nStreams)
 	for i := range streams {
@@ -564,13 +567,14 @@ func concurrentCase(c *vh.Case) {
 			byStream[op.Stream] = append(byStream[op.Stream], po)
 		}
 		for st, sops := range byStream {
-			res, _ := porcupine.CheckOperationsVerbose(listModel, sops, 60*time.Second)
+			res, _ := porcupine.CheckOperationsVerbose(listModel, sops, 15*time.Second)
 			c.Count("porcupine_histories", 1)
 			switch res {
 			case porcupine.Illegal:
 				c.Violate("not-linearizable", "history of stream %s (%d ops) is not linearizable w.r.t. the append-list model", st, len(sops))
 			case porcupine.Unknown:
-				c.Inconclusive("porcupine timed out on %d ops", len(sops))
+				// the search did not finish (loaded machine): not a verdict; the structural checker below still applies
+				c.Count("porcupine_timeouts", 1)
 			}
 		}
 		_ = ops
@@ -692,4 +696,156 @@ func structuralCheck(c *vh.Case, hist []cOp, evict bool) {
 			}
 		}
 	}
+}
+
+
+// closeUnderLoadCase: session A holds most of the byte budget spread over many streams; it is closed
+// while other sessions append items that only fit once A is gone, and while the limit is changed.
+// Whatever the interleaving, no operation may fail or panic, and afterwards every surviving stream
+// answers with a suffix of what was appended to it (or the purge error), within the byte bound.
+var spinSink atomic.Int64
+
+func closeUnderLoadCase(c *vh.Case) {
+	r := c.R
+	ctx := context.Background()
+	s := mcp.NewMemoryEventStore(nil)
+	nA := r.Range(200, 4000)
+	if r.Chance(1, 3) {
+		nA = r.Range(15000, 50000) // a long-lived session: closing it takes a while
+	}
+	itemA := r.Range(1, 4)
+	limit := nA*itemA + r.Range(8, 64)
+	fill := nA
+	if r.Bool() {
+		// A alone ends up over the limit by its most recent item (which the store allows)
+		limit = nA * itemA
+		fill = nA + 1
+	}
+	s.SetMaxBytes(limit)
+	for i := 0; i < fill; i++ {
+		st := fmt.Sprintf("a%d", i)
+		s.Open(ctx, "A", st)
+		if err := s.Append(ctx, "A", st, payload("A", i, itemA)); err != nil {
+			c.Violate("append-failed", "Append(A,%s): %v", st, err)
+			return
+		}
+	}
+	others := r.Range(1, 3)
+	perG := r.Range(1, 4)
+	big := r.Range(limit/3, limit-4)
+	spin := r.Intn(4000) // the other sessions start a little after the close has begun
+	type rec struct {
+		sess, stream string
+		data         [][]byte
+	}
+	recs := make([]*rec, others)
+	var wg sync.WaitGroup
+	start := make(chan struct{})
+	var emu sync.Mutex
+	var errs []string
+	for g := 0; g < others; g++ {
+		g := g
+		rc := &rec{sess: fmt.Sprintf("B%d", g), stream: "t"}
+		recs[g] = rc
+		s.Open(ctx, rc.sess, rc.stream)
+		sizes := make([]int, perG)
+		for j := range sizes {
+			sizes[j] = []int{big, r.Range(1, 16), 1, big / 2}[r.Intn(4)]
+		}
+		wg.Add(1)
+		go func() {
+			defer wg.Done()
+			<-start
+			for k := 0; k < spin*(g+1); k++ {
+				spinSink.Add(1)
+			}
+			for j, sz := range sizes {
+				d := payload(rc.sess, j, sz)
+				if err := s.Append(ctx, rc.sess, rc.stream, d); err != nil {
+					emu.Lock()
+					errs = append(errs, fmt.Sprintf("Append(%s,#%d,%d bytes): %v", rc.sess, j, sz, err))
+					emu.Unlock()
+					return
+				}
+				rc.data = append(rc.data, d)
+			}
+		}()
+	}
+	wg.Add(1)
+	go func() {
+		defer wg.Done()
+		<-start
+		if err := s.SessionClosed(ctx, "A"); err != nil {
+			emu.Lock()
+			errs = append(errs, "SessionClosed(A): "+err.Error())
+			emu.Unlock()
+		}
+	}()
+	resize := r.Chance(1, 3)
+	if resize {
+		wg.Add(1)
+		go func() {
+			defer wg.Done()
+			<-start
+			s.SetMaxBytes(limit)
+		}()
+	}
+	close(start)
+	wg.Wait()
+	c.SetSpec(map[string]any{"gen": "close-under-load", "streams_of_A": nA, "item_bytes": itemA, "limit": limit, "other_sessions": others, "appends_each": perG, "big_item": big, "resize": resize})
+	if len(errs) > 0 {
+		c.Violate("operation-failed-under-concurrency", "%v", errs)
+		return
+	}
+	total := 0
+	last := 0
+	for _, rc := range recs {
+		got, err := afterAll(s, rc.sess, rc.stream, -1)
+		if err != nil {
+			if !errors.Is(err, mcp.ErrEventsPurged) {
+				c.Violate("after-error", "After(%s,t,-1): %v", rc.sess, err)
+				return
+			}
+			// purged: some suffix is still obtainable; find it
+			ok := false
+			for i := 0; i < len(rc.data); i++ {
+				if g2, e2 := afterAll(s, rc.sess, rc.stream, i); e2 == nil {
+					if !eqSlices(g2, rc.data[i+1:]) {
+						c.Violate("after-mismatch", "After(%s,t,%d) returned %v, appended suffix is %v", rc.sess, i, trunc(g2), trunc(rc.data[i+1:]))
+						return
+					}
+					for _, d := range g2 {
+						total += len(d)
+					}
+					ok = true
+					break
+				}
+			}
+			if !ok {
+				c.Violate("after-error", "no index of %s/t can be replayed any more", rc.sess)
+				return
+			}
+		} else {
+			if !eqSlices(got, rc.data) {
+				c.Violate("after-mismatch", "After(%s,t,-1) returned %v, appended %v", rc.sess, trunc(got), trunc(rc.data))
+				return
+			}
+			for _, d := range got {
+				total += len(d)
+			}
+		}
+		if n := len(rc.data); n > 0 && len(rc.data[n-1]) > last {
+			last = len(rc.data[n-1])
+		}
+	}
+	if total > limit+big {
+		c.Violate("over-limit", "retained %d bytes > max %d + largest item %d", total, limit, big)
+		return
+	}
+	if _, err := afterAll(s, "A", "a0", -1); err == nil {
+		// a closed session's streams are gone (After on an unknown stream reports an error)
+		c.Violate("closed-session-data-retained", "After(A,a0,-1) still answers after SessionClosed(A)")
+		return
+	}
+	c.Nontrivial(fmt.Sprintf("close-under-load/%d/%d/%d/%d/%v", nA/500, others, perG, big*4/limit, resize))
 }
